@@ -465,6 +465,98 @@ example : (∀ p ∈ exH, p.1 ≤ 80) ∧ 80 + exCfg.window < 1200000000081 ∧
     isPending (run exCfg State.init exH) 1200000000060 (lit "13|5") = (true, false) ∧
     isPending (run exCfg State.init exH) 1200000000061 (lit "13|5") = (false, false) := by decide
 
+/-! ### the two "until" events in the other order: the lockout runs out first, the log arrives later -/
+
+private theorem opFree_of_B {pa pl : List Str} {op : Op} (h : opFreeB pa pl op = true) : opFree pa pl op := by
+  cases op <;> simpa [opFreeB, opFree] using h
+
+private theorem lateSplitFrom_app (w : Nat) (h : List (Nat × Op)) (i : Nat) (pre recent : List (Nat × Op))
+    (hs : lateSplitFrom w h i = some (pre, recent)) : pre ++ recent = h := by
+  induction i with
+  | zero => simp [lateSplitFrom] at hs
+  | succ i ih =>
+    simp only [lateSplitFrom] at hs
+    split at hs
+    · simp only [Option.some.injEq, Prod.mk.injEq] at hs
+      rw [← hs.1, ← hs.2]; exact List.take_append_drop _ _
+    · exact ih hs
+
+/-- `late_log_after_expiry`: let every operation of `pre` (one window) be more than a lockout window older than the
+    first operation of `recent` (the next window, probe included), everything within the hour a key stays active,
+    canonical keys, and after the pause no re-accept of a key accepted before it and no log of a key that already had one.
+    Then the id blocks are exactly the join of the contributions made since the pause — a first log that arrives only
+    after its lockout ran out blocks the id up to its transmit block (resp. check block + 1) for a new window — while the
+    active keys and their flags are those of the whole history. -/
+theorem late_log_after_expiry (cfg : Cfg) (pre recent : List (Nat × Op)) (now : Nat) (probes : List Str)
+    (hr : lateRegime cfg pre recent now probes = true) :
+    let s := run cfg State.init (pre ++ recent)
+    let g := ghostLate cfg pre recent
+    (∀ key ∈ probes, isPending s now key = expPending g key) ∧ (∀ key, isConfirmed s now key = expConfirmed g key) := by
+  cases recent with
+  | nil => simp [lateRegime] at hr
+  | cons r rest =>
+    simp only [lateRegime, Bool.and_eq_true, List.all_eq_true, decide_eq_true_eq] at hr
+    obtain ⟨⟨⟨⟨⟨⟨⟨⟨hcp, hcr⟩, hprobe⟩, hpre⟩, hrec⟩, h0r⟩, hrn⟩, hnw⟩, hna⟩ := hr
+    -- first window
+    have hb : Bounded (run cfg State.init pre).idBlocks (r.1 - 1) := by
+      apply bounded_run
+      · intro k v e hf; simp [State.init, Cache.empty, Cache.find] at hf
+      · intro p hp; have := (hpre p hp).2; omega
+    have S1 : Sim2 (minTime pre now + cfg.window) (minTime pre now + activeTtlNs) [] []
+        (run cfg State.init pre) (ghost cfg (pre.map (·.2))) := by
+      apply sim_run2 cfg _ _ [] [] pre State.init Ghost.init (sim_init2 _ _ _ _)
+      intro p hp
+      obtain ⟨⟨a, b⟩, c⟩ := hpre p hp
+      exact ⟨hcp p hp, b, by omega, by omega, by omega, opFree_nil _⟩
+    -- second window, started from the same active keys and no id block
+    have S0 : Sim2 (r.1 + cfg.window) (minTime pre now + activeTtlNs)
+        (ghost cfg (pre.map (·.2))).accepted (ghost cfg (pre.map (·.2))).logged
+        { idBlocks := [], activeKeys := (run cfg State.init pre).activeKeys }
+        { ghost cfg (pre.map (·.2)) with contribs := [] } := by
+      refine ⟨fresh_empty _, S1.freshA, ?_, ?_, S1.active, ?_, S1.logAcc⟩
+      · intro k b e hf; simp [Cache.find] at hf
+      · intro id; simp [Cache.find, Ghost.block, Ghost.forId, joinAll]
+      · intro k hk
+        rcases hk with ⟨a, b⟩ | ⟨a, b⟩
+        · exact absurd a b
+        · exact absurd a b
+    have S2 := sim_run2 cfg _ _ _ _ (r :: rest) _ _ S0 (by
+      intro p hp
+      obtain ⟨⟨⟨a, b⟩, c⟩, d⟩ := hrec p hp
+      exact ⟨hcr p hp, b, by omega, c, by omega, opFree_of_B d⟩)
+    have GE0 : GetEq r.1 (run cfg State.init pre) { idBlocks := [], activeKeys := (run cfg State.init pre).activeKeys } := by
+      refine ⟨rfl, fun k t ht => ?_⟩
+      have hnone : (run cfg State.init pre).idBlocks.get t k = none := by
+        by_cases hz : r.1 = 0
+        · cases pre with
+          | nil => simp [run, State.init, Cache.empty, Cache.get, Cache.find]
+          | cons p ps => have := (hpre p (by simp)).2; omega
+        · exact get_none_of_bounded hb (by omega) k
+      rw [hnone]
+      simp [Cache.get, Cache.find]
+    have GE := getEq_run cfg r.1 (r :: rest) _ _ GE0 (fun p hp => (hrec p hp).1.1.1)
+    simp only [run_app]
+    refine ⟨fun key hk => ?_, fun key => ?_⟩
+    · rw [isPending_getEq GE hrn key]
+      exact isPending_of_sim S2 hnw key (hprobe key hk)
+    · rw [isConfirmed_getEq GE key]
+      exact isConfirmed_of_sim S2 hna key
+
+/-- hypotheses of `late_log_after_expiry` met: lockout 5 s; accept `10|7` and `10|8`; 10 s later the first confirmed
+    perform log of `10|7` in block 25 and a stale report of `10|8` — blocks up to 25 resp. 11 are filtered again, and
+    both keys count as confirmed -/
+example :
+    let cfg : Cfg := { lockout := 5000000000, minConfs := 0 }
+    let pre : List (Nat × Op) := [(137, .accept (lit "10|7")), (138, .accept (lit "10|8"))]
+    let recent : List (Nat × Op) := [(10000000000, .perform { key := lit "10|7", transmit := lit "25", confs := 3 }),
+      (10000000000, .stale { key := lit "10|8", transmit := lit "1", confs := 0 })]
+    let probes := [lit "25|7", lit "26|7", lit "11|8", lit "12|8"]
+    lateSplit cfg.window (pre ++ recent) = some (pre, recent) ∧
+    lateRegime cfg pre recent 10500000000 probes = true ∧
+    probes.map (isPending (run cfg State.init (pre ++ recent)) 10500000000) =
+      [(true, false), (false, false), (true, false), (false, false)] ∧
+    isConfirmed (run cfg State.init (pre ++ recent)) 10500000000 (lit "10|7") = true := by decide
+
 /-! ### the Spec predicate holds of the model, for every case the harness can generate -/
 
 /-- inside the regime the model's observation is the one the history prescribes -/
@@ -476,6 +568,26 @@ theorem observe_eq_expected (cfg : Cfg) (probes ckeys : List Str) (h : List (Nat
   unfold observe expected
   simp only [Obs.mk.injEq]
   exact ⟨List.map_congr_left (fun key hk => a1 key (hp key hk)), List.map_congr_left (fun key _ => a2 key)⟩
+
+/-- after a pause longer than the lockout the model's observation is the one the history since the pause prescribes -/
+theorem observe_lateOk (cfg : Cfg) (probes ckeys : List Str) (h : List (Nat × Op)) (now : Nat) :
+    lateOk cfg probes ckeys h now (observe cfg probes ckeys h now) = true := by
+  unfold lateOk
+  cases hs : lateSplit cfg.window h with
+  | none => rfl
+  | some pr =>
+    obtain ⟨pre, recent⟩ := pr
+    simp only
+    by_cases hr : lateRegime cfg pre recent now probes = true
+    · have happ : pre ++ recent = h := lateSplitFrom_app _ _ _ _ _ hs
+      obtain ⟨a1, a2⟩ := late_log_after_expiry cfg pre recent now probes hr
+      have : observe cfg probes ckeys h now = expectedLate cfg probes ckeys pre recent := by
+        unfold observe expectedLate
+        rw [← happ]
+        simp only [Obs.mk.injEq]
+        exact ⟨List.map_congr_left (fun key hk => a1 key hk), List.map_congr_left (fun key _ => a2 key)⟩
+      simp [hr, this]
+    · simp [hr]
 
 private theorem expected_perm (cfg : Cfg) (probes ckeys : List Str) (h h' : List (Nat × Op))
     (hp : (h.map (·.2)).Perm (h'.map (·.2)))
@@ -501,6 +613,8 @@ theorem spec_model (cfg : Cfg) (probes ckeys : List Str) (runs : List Run) :
     apply zipAll_map_self
     intro p _
     unfold pointOk
+    simp only [Bool.and_eq_true]
+    refine ⟨?_, observe_lateOk cfg probes ckeys _ _⟩
     by_cases hr : regime cfg (r.ops.take p.1) p.2 probes = true
     · simp [hr, observe_eq_expected cfg probes ckeys _ _ hr]
     · simp [hr]
